@@ -630,9 +630,20 @@ def b4n(rep, w):
                        't': {'t': 'return', 'sp': 0}}]}
     ctl = narrow_overflows(w, Fn(c, raw), tab)
     r.check(len(ctl) == 1, 'control: `x: u8; x + 1` is recognised as able to overflow', 'the detector no longer flags the hand-made control body (%s)' % ctl)
+    # the compiler = compiler.rs, scanner.rs and whatever else compile() reaches in the crate (the chunk it writes into, helpers in utils)
+    cg = w.callgraph()
+    reach, todo = {'yarel::compiler::compile'}, ['yarel::compiler::compile']
+    while todo:
+        x = todo.pop()
+        for y in cg.get(x, ()):
+            if y not in reach:
+                reach.add(y)
+                todo.append(y)
     for f in sorted(c.fns.values(), key=lambda x: x.path):
-        if not f.file.endswith(('compiler.rs', 'scanner.rs')):
+        if not (f.file.endswith(('compiler.rs', 'scanner.rs', 'chunk.rs')) or f.path in reach):
             continue
+        if f.file.endswith(('vm.rs', 'core.rs', 'memory.rs', 'debug.rs')):
+            continue        # the interpreter proper (reached through string interning): run-time arithmetic is C10 V5's subject
         for (op, res, nt, sp) in narrow_overflows(w, f, tab):
             r.bad('%s / %s on %s' % (f.path.replace(P_, ''), op.replace('WithOverflow', ''), nt),
                   'the result can reach %s but the counter is a %s: the checked build panics inside the compiler, the optimised build wraps and emits code for the '
